@@ -300,6 +300,13 @@ fn layouts(rng: &mut Rng) -> Vec<LayoutSpec> {
         let (w, h) = *rng.pick(&[(2u32, 2u32), (4, 2), (1, 1), (3, 5), (4, 4)]);
         push(Kind::Dx9 { caps2: 0x200 | (faces << 10) }, w, h, None, mips);
     }
+    // mip chains longer than 32 levels (legal up to 255; levels >= 31 are 1x1(x1)): seed C11h
+    push(Kind::Dx10 { cube: false, dim: 3, array: 1 }, 4, 2, Some(2), 40);
+    push(Kind::Dx9 { caps2: 0x200000 }, 1, 1, Some(3), 255);
+    push(Kind::Dx9 { caps2: 0x200000 }, 2, 6, Some(5), 35);
+    push(tex.clone(), 3, 2, None, 36);
+    push(Kind::Dx10 { cube: true, dim: 2, array: 1 }, 2, 2, None, 34);
+    push(Kind::Dx10 { cube: false, dim: 2, array: 2 }, 5, 1, None, 33);
     v
 }
 
@@ -372,6 +379,31 @@ pub fn gen(seed: u64, thorough: bool) -> Vec<String> {
                     let mut s2 = seq.clone();
                     s2.push(op);
                     stack.push((nk, s2));
+                }
+            }
+            // long chains: walks over the whole layout (forward calls of every kind, now and then a step back or a
+            // mipmap skip), then back to the start and one more read
+            if l.mips > 16 {
+                for _ in 0..(if thorough { 12 } else { 4 }) {
+                    let mut k = 0usize;
+                    let mut seq = vec![];
+                    let mut guard = 0;
+                    while k < spec.flat.len() && guard < 1500 {
+                        guard += 1;
+                        let vs = valid_variants(&spec, k, &mut rng, false);
+                        let op = if rng.chance(1, 12) { vs[3 + rng.below(2) as usize].clone() } else { vs[rng.below(3) as usize].clone() };
+                        let (_, nk, _) = spec.step(k, &op);
+                        k = nk;
+                        seq.push(op);
+                    }
+                    for op in [Op::Skip, Op::Prev, Op::Start] {
+                        let (_, nk, _) = spec.step(k, &op);
+                        k = nk;
+                        seq.push(op);
+                    }
+                    let vs = valid_variants(&spec, k, &mut rng, false);
+                    seq.push(vs[0].clone());
+                    out.push(format!("{} {}", head, seq.iter().map(|o| o.fmt()).collect::<Vec<_>>().join(" ")));
                 }
             }
             // random deeper sequences with error variants
